@@ -18,16 +18,61 @@ def big_obs(ctx, tdir, ell, forms=(0, 1, 2, 3, 4)):
     return obs
 
 
+LEVEL_NS = (128, 256, 512, 1024, 2048, 4096, 8192, 16384, 32768, 65536)
+
+
+def parse_ntt_meta(tdir):
+    """level metadata, twiddle maxima and input bit sizes as dumped into vf_tables.h (the harness uses the same header)"""
+    import re
+    txt = open(tdir + "/vf_tables.h").read()
+    out = {}
+    for m in re.finditer(r"VFT_(NTT|INTT)_META_(\d+)\[\d+\] = \{(.*?)\};", txt):
+        ent = []
+        for e in re.finditer(r"\{\{UINT64_C\((\d+)\),UINT64_C\((\d+)\),UINT64_C\((\d+)\),UINT64_C\((\d+)\)\},(\d+),(\d+),UINT64_C\((\d+)\),(\d+)\}", m.group(3)):
+            g = [int(x) for x in e.groups()]
+            ent.append({"q2bs": g[0:4], "bs": g[4], "half_bs": g[5], "mask": g[6], "reduce": g[7]})
+        out[(m.group(1), int(m.group(2)))] = {"meta": ent}
+    for m in re.finditer(r"#define VFT_(NTT|INTT)_(TMAX|T1MAX)_(\d+) \{(\d+),(\d+),(\d+),(\d+)\}", txt):
+        out.setdefault((m.group(1), int(m.group(3))), {})[m.group(2).lower()] = [int(m.group(i)) for i in (4, 5, 6, 7)]
+    for m in re.finditer(r"#define VFT_(NTT|INTT)_INBITS_(\d+) (\d+)", txt):
+        out.setdefault((m.group(1), int(m.group(2))), {})["inbits"] = int(m.group(3))
+    return out
+
+
+def level_obs(ctx, ns_small):
+    """per-level interval induction: every n = 2^k up to 65536 (metadata-only dump for n beyond the end-to-end runs)"""
+    tdir = core.tables_dir(ctx, (), ns_small, LEVEL_NS)
+    md = parse_ntt_meta(tdir)
+    obs = []
+    for n in sorted(set(ns_small) | set(LEVEL_NS)):
+        if n < 2:
+            continue
+        for direction, kind in ((0, "NTT"), (1, "INTT")):
+            e = md.get((kind, n))
+            if not e or "tmax" not in e or not e["meta"]:
+                continue
+            obs.append(AlgOb("ntt-levels/%s/n=%d" % ("forward" if direction == 0 else "inverse", n), "ntt.c", "h_ntt_levels", "vf.alg.q120:check_ntt_levels",
+                             params={"n": n, "dir": direction, "primes": c10.PRIMES30, "meta": e["meta"], "tmax": e["tmax"], "t1max": e["t1max"], "inbits": e["inbits"]},
+                             defs={"LEVELS": None, "N": n, "DIR": direction}, libs=c03.LIBS, unwind=40, inc=[tdir], family="q120 NTT level induction", timeout=900,
+                             desc="each level function of the real transform with the real metadata of this n on a block of fresh symbolic vectors: inputs bounded "
+                                  "by the interval derived for the previous level, twiddle halves by the maxima of the real table; no add/sub/shift leaves its word "
+                                  "and every output is congruent to the butterfly formula (hence no 32x32 multiply dropped operand bits)"))
+    return obs
+
+
 def obligations(ctx):
     ns = [2, 4, 8, 16, 32, 64] if ctx.quick else [2, 4, 8, 16, 32, 64, 128, 256]
     tdir = core.tables_dir(ctx, (), ns)
     obs = [o for o in c03.ntt_obs(ctx, tdir, ns) if not o.name.startswith("ntt_then_intt")]
+    obs += level_obs(ctx, ns)
     obs += c10.product_obs(ctx, tdir, [0, 1, 2, 3])
+    obs += c10.accel_obs(ctx, tdir)
     obs += big_obs(ctx, tdir, 100)      # with congruence
-    obs += big_obs(ctx, tdir, 10000, forms=(0, 1, 2))  # MAX_ELL: interval-only streaming run (wrap-freedom)
-    # the two-coefficient block forms run the same per-term body on 2 resp. 4 accumulator sets; symbolic execution of 10000 terms needs
-    # >20 GB per instance here, so they are unrolled to 2000 terms (their accumulators are bounded term-for-term like the one-column form's)
-    obs += big_obs(ctx, tdir, 2000, forms=(3, 4))
+    if not ctx.quick:
+        # the loop summarisation above covers every ell <= 10000; the thorough tier additionally unrolls the kernels in full
+        # (symex 40-500 s and up to 14 GB per instance; the x2 forms at 2000 terms, their accumulators being bounded term for term like the others)
+        obs += big_obs(ctx, tdir, 10000, forms=(0,))
+        obs += big_obs(ctx, tdir, 2000, forms=(1, 2))
     return obs
 
 
@@ -44,12 +89,20 @@ def check(ctx, only=None, list_only=False):
     meta = {
         "functions_encoded": ["q120_ntt_bb_avx2", "q120_intt_bb_avx2", "ntt_iter(_red)", "intt_iter(_red)", "ntt_iter_first(_red)", "split_precompmul_si256", "modq_red"]
                              + [f for _, f in c10.FUNCS],
-        "bounds": "NTT/iNTT end to end for n in {2..64} (256 thorough), every lane any 64-bit value; products: ell in {0,1,2,3} with the bit-precise memory run, "
-                  "ell = 100 (wrap-freedom and congruence) and ell = 10000 = MAX_ELL for the six one-coefficient kernels / ell = 2000 for the four two-coefficient block kernels (wrap-freedom, interval-only streaming interpretation of the unrolled kernel); operands: every value of "
-                  "the a / b / c layouts; default 30-bit prime set",
-        "outside": "ell in (2000, 10000] for the q120x2 block kernels (memory of the symbolic execution); NTT sizes above 64 (256): the per-level bit-size bookkeeping for n up to 65536 is not yet decided inductively; 29/31-bit prime sets",
+        "bounds": "NTT/iNTT end to end for n in {2..64} (256 thorough), every lane any 64-bit value; NTT/iNTT per-level interval induction for EVERY n = 2^k <= 65536 "
+                  "(real level functions + real level metadata of each n, inputs of level l bounded by the interval derived for level l-1, symbolic twiddle halves "
+                  "bounded by the maxima of the real table); products: ell in {0,1,2,3} and 100 executed in full (wrap-freedom and congruence), EVERY ell <= 10000 = MAX_ELL "
+                  "for all ten kernels by loop summarisation from the VC at 6 iterations (accumulator increments bounded over all operand values, epilogue re-evaluated "
+                  "on accumulators of up to 10000 increments); thorough tier: kernels unrolled in full at ell = 10000 (a*a) / 2000 (b*b, b*c); operands: every value "
+                  "of the a / b / c layouts; default 30-bit prime set",
+        "outside": "for n > 64 (256): that the driver hands level l's metadata and twiddles to level l's function (same loop as for small n; the by-block mode for "
+                   "n > 1024 is not executed end to end) and that the twiddle table holds the right powers (exactness for large n is C03's gap); the loop summarisation "
+                   "assumes that iterations beyond the 6 unrolled ones execute the same loop body (the 6 unrolled increments are checked to have identical shape and "
+                   "bounds); 29/31-bit prime sets",
         "assumptions": ["a no-wrap obligation is discharged by rigorous interval arithmetic over the exact integer polynomial of each intermediate; an open "
                         "obligation is reported as a violation candidate and replayed on the all-maximal operand pattern",
-                        "h and 2^e mod q constants / level metadata dumped from the real builders"],
+                        "h and 2^e mod q constants / level metadata / per-lane maxima of the twiddle halves dumped from the real builders of the working tree",
+                        "a failed level step (its input envelope is an over-approximation) is reported as a violation only if the REAL whole transform of that size "
+                        "goes wrong natively on a worst-case or random input (T(x) vs T(x mod q)); otherwise it is inconclusive"],
     }
     return core.finish(ctx, res, meta)
